@@ -15,6 +15,8 @@ LEAN_TARGETS = ["PV.Props.C01"]
 EXTRA_PROPS = ['PV.Props.C01Kepler']
 # T-C tie (DESIGN 2.3): kernels traced from the current source are proved equal to the model over the reals
 EQUIV = {'PV.Equiv.Look': ['kep2xyz_eq']}
+import symtrace_sgp4  # noqa: E402  (static lists of the SGP4 stage-equivalence theorems)
+EQUIV.update(symtrace_sgp4.EQUIV_SGP4)
 RULE = ("element sets from the structured TLE generator (regimes: operational LEO, near-earth incl. e<=1e-4, i near 0/180, "
         "critical inclination, negative/large B*, plus every field over its printable range) and the repo's own test TLEs; "
         "times epoch + {0, <=1 d, <=60 d}; every named intermediate of initialisation and propagation is compared "
